@@ -226,8 +226,9 @@ PARTS = {"advance": oracle_advance, "foot_height": oracle_foot_height, "env": or
 def advance_cases(draw, long=False):
     return {
         "phase": draw(st.one_of(st.sampled_from([0.0, -PI, PI, float(np.nextafter(F32(PI), F32(0))), -1e-7]), st.floats(-PI, PI, allow_nan=False))),
-        "frequency": draw(st.one_of(st.sampled_from([0.0, 1.25, 1.5, 4.0, 2.0]), st.floats(0, 4, allow_nan=False))),
-        "dt": draw(st.sampled_from([0.02, 0.04])),
+        # "all gait frequencies": also clocks that advance by several whole cycles per control step (f*dt > 1)
+        "frequency": draw(st.one_of(st.sampled_from([0.0, 1.25, 1.5, 4.0, 2.0, 25.0, 50.0, 61.0]), st.floats(0, 4, allow_nan=False), st.floats(4, 120, allow_nan=False))),
+        "dt": draw(st.sampled_from([0.02, 0.04, 0.1])),
         "steps": draw(st.sampled_from([5000] if long else [1, 10, 100])),
     }
 
@@ -249,7 +250,7 @@ LOCO_EXTRA = [{}, {"lin_vel_x_range": [0.5, 2.0], "lin_vel_y_range": [-0.1, 0.0]
 
 def run(ctx: Ctx):
     ctx.rule = (
-        "Gait helpers: phases over [-pi, pi] incl. +-pi and +-1 ulp, frequencies in [0,4] Hz, dt in {0.02, 0.04}, histories of up "
+        "Gait helpers: phases over [-pi, pi] incl. +-pi and +-1 ulp, frequencies in [0,120] Hz (incl. several cycles per step), dt in {0.02, 0.04, 0.1}, histories of up "
         "to 5000 advance steps (range, increment 2*pi*f*dt mod 2*pi, half-cycle offset), desired foot height on dense phase grids "
         "(range, 0 at -pi, peak at 0, monotone halves, continuity). Environments (3 tasks x range configurations, process pool): "
         "vmapped initial() over many keys - randomised friction / friction loss / armature / masses inside the configured ranges, "
